@@ -19,7 +19,7 @@ EXPLANATION = (
     'all strings itself is delegated to the stdlib algebra (trusted).')
 ASSUMPTIONS = ['A2 quote/unquote algebra, strftime/strptime inverse for this format',
                'original locations contain no NUL and the clock yields years >= 1000']
-MINIMUM = {'R03.1': 4, 'R03.2': 1, 'R03.3': 3, 'R03.4': 4}
+MINIMUM = {'R03.1': 4, 'R03.2': 1, 'R03.3': 3, 'R03.4': 4, 'R03.5': 2}
 TEMPLATE = '[Trash Info]\nPath=%s\nDeletionDate=%s\n'
 DATEFMT = '%Y-%m-%dT%H:%M:%S'
 
@@ -53,7 +53,9 @@ def check(ctx):
             if okq:
                 safe = q.args[1] if len(q.args) > 1 else dict(q.kwargs).get('safe', Const('/'))
                 safe = strip(safe)
-                okq = isinstance(safe, Const) and isinstance(safe.value, str) and \
+                raw = contains(q.args[0], lambda x: (isinstance(x, Call) and x.fn in (
+                    'os.fsencode', 'bytes')) or (isinstance(x, MCall) and x.name == 'encode'))
+                okq = not raw and isinstance(safe, Const) and isinstance(safe.value, str) and \
                     set(safe.value) <= {'/'} and \
                     not any(k in ('errors', 'encoding') for k, _ in q.kwargs) and \
                     len(q.args) <= 2
@@ -71,6 +73,48 @@ def check(ctx):
             ctx.ob('R03.3', 'DeletionDate is written with strftime(%s)' % DATEFMT, okd, node=w,
                    message='the DeletionDate value is %s' % short(d, 80))
 
+    # ---- R03.5 what is recorded for relative candidates: a prefix slice at a boundary
+    for w in r.writes:
+        for q in [x for x in walk(w.data['roles']['data'])
+                  if isinstance(x, Call) and x.fn == 'urllib.parse.quote']:
+            bad = []
+            for x in walk(q.args[0]):
+                if r.is_arg(x):
+                    continue
+                if isinstance(x, MCall) and r.mentions_arg(x.recv):
+                    bad.append(x)
+                if isinstance(x, Sub) and r.mentions_arg(x.base):
+                    idx = x.index
+                    okslice = isinstance(idx, Slice) and idx.upper is None and \
+                        idx.step is None and is_call(strip(idx.lower), 'len') and \
+                        isinstance(strip(strip(idx.lower).args[0]), Bin) and \
+                        strip(strip(idx.lower).args[0]).op == '+'
+                    if not okslice and not isinstance(strip(x.base), Call):
+                        bad.append(x)
+                    elif not okslice:
+                        bad.append(x)
+            ctx.ob('R03.5', 'the recorded location is the resolved parent, or that with the '
+                            'prefix "<topdir>/" sliced off, joined with the base name',
+                   not bad, node=w,
+                   message='the location written to Path= is computed with %s: not a plain '
+                           'prefix slice of the resolved parent (e.g. str.replace removes '
+                           'every occurrence of "<topdir>/", not only the leading one)'
+                           % short(bad[0], 120) if bad else '')
+    for n in b.nodes('assume'):
+        c, pol = unwrap_not(n.data['cond'], n.data['pol'])
+        for x in walk(c):
+            if isinstance(x, MCall) and x.name == 'startswith' and r.mentions_arg(x.recv) \
+                    and contains(x.recv, lambda y: isinstance(y, Call) and
+                                 y.fn == 'os.path.realpath'):
+                arg = strip(x.args[0]) if x.args else None
+                okb = isinstance(arg, Bin) and arg.op == '+' and (
+                    (isinstance(strip(arg.right), ExtRef) and
+                     strip(arg.right).qualname in ('os.sep', 'os.path.sep')) or
+                    is_const(strip(arg.right), '/'))
+                ctx.ob('R03.5', 'the volume prefix is recognised at a component boundary',
+                       okb, node=n,
+                       message='the parent is taken to lie below the volume when it merely '
+                               'starts with %s (/mnt2/x is not below /mnt)' % short(arg, 60))
     # ---- readers
     n_un = 0
     for cmd in ('list', 'restore', 'rm'):
@@ -80,6 +124,13 @@ def check(ctx):
                        False, node=node,
                        message='%s: the %s uses the Path value without percent-decoding it'
                                % (cmd, what))
+            for V, P, j in [x for a in flat(term) for x in location_joins(a)]:
+                exact = all(is_call(strip(a), *UNQUOTERS) for a in flat(P))
+                ctx.ob('R03.1', '%s %s uses the decoded Path as it is' % (cmd, what), exact,
+                       node=node,
+                       message='%s: the %s post-processes the decoded Path (%s): names with '
+                               'leading separators / trailing blanks no longer round-trip'
+                               % (cmd, what, short(P, 100)))
             for u in unquote_calls(term):
                 n_un += 1
                 inner_twice = has_unquote(u.args[0]) if u.args else False
@@ -138,7 +189,7 @@ def b_guards(ctx, cmd, node, u):
     return res or [False]
 
 
-def first_match_rules(ctx):
+def first_match_rules(ctx, rule='R03.3'):
     """First Path= line and first DeletionDate= line win (syntactic check of the
     functions that contain the unquote / strptime calls)."""
     p = ctx.program
@@ -155,7 +206,7 @@ def first_match_rules(ctx):
                     leaves = any(isinstance(x, (ast.Return, ast.Break)) for x in ast.walk(i))
                     if uses_value or leaves:
                         found_path += 1
-                        ctx.ob('R03.3', 'first "Path=" line wins in %s' % f.qualname, leaves,
+                        ctx.ob(rule, 'first "Path=" line wins in %s' % f.qualname, leaves,
                                construct=f.qualname, text=ast.unparse(i.test),
                                message='%s keeps scanning after the first Path= line: a '
                                        'later duplicate key overrides the first one'
@@ -175,9 +226,13 @@ def first_match_rules(ctx):
                                   and isinstance(n.operand, ast.Name)
                                   for n in ast.walk(i.test))
                     leaves = any(isinstance(x, (ast.Return, ast.Break)) for x in ast.walk(i))
-                    ctx.ob('R03.3', 'first "DeletionDate=" line wins in %s' % f.qualname,
+                    ctx.ob(rule, 'first "DeletionDate=" line wins in %s' % f.qualname,
                            (guarded and bool(sets)) or leaves, construct=f.qualname, text=t,
                            message='%s: a later DeletionDate= line overrides the first one'
                                    % f.qualname)
-    ctx.require(found_path and found_date, 'R03.3: reader loops for Path=/DeletionDate= not '
-                                           'found (anchor vanished)')
+    if not (found_path and found_date):
+        ctx.ob(rule, 'the reader loops for Path= / DeletionDate= have first-match form', False,
+               construct='trashcli.parse_trashinfo', text='reader loops',
+               message='no loop that scans for "Path=" / parses "DeletionDate=" with the one '
+                       'expected format was found: the readers were restructured (several '
+                       'formats, several passes) and first-line semantics cannot be established')
